@@ -11,7 +11,7 @@ use std::panic::{AssertUnwindSafe, catch_unwind};
 use wirefilter::{CompoundType, Scheme, SchemeBuilder, Type};
 use wirefilter_ffi::{
     CPrimitiveType, CType, wirefilter_create_array_type, wirefilter_create_map_type, wirefilter_create_primitive_type,
-    wirefilter_free_string, wirefilter_serialize_type_to_json,
+    wirefilter_free_string, wirefilter_serialize_scheme_to_json, wirefilter_serialize_type_to_json,
 };
 
 const SWEEP_CHUNKS: u32 = 64;
@@ -30,7 +30,7 @@ pub static DEF: PropDef = PropDef {
     real: &["wirefilter Type/CompoundType/Scheme serde", "wirefilter_ffi::CType conversions and wirefilter_create_*_type", "serde_json"],
     stub: &["byte source (FaultyReader over an in-memory document)"],
     assumptions: &["serde_json and std::io adapters are the transport and are trusted", "reference model of the packed form: layer i (outermost = 0) is bit i, 1 = Map"],
-    required_probes: &["fault.eintr", "fault.eof", "fault.ioerr", "mut.dup", "mut.reorder", "mut.deepen", "entry.value-tree", "entry.from_reader"],
+    required_probes: &["fault.eintr", "fault.eof", "fault.ioerr", "mut.dup", "mut.reorder", "mut.deepen", "entry.value-tree", "entry.from_reader", "producer.capi"],
     extra: None,
 };
 
@@ -347,6 +347,18 @@ fn scheme_transport(fields: FieldList, entry: Entry, mutation: Mutation, plan_ha
     let tv = serde_json::to_value(&scheme).map_err(|e| v("scheme-to-value", "", e.to_string()))?;
     if tv != as_value {
         return Err(v("scheme-to-value-differs", "", format!("to_string {text} vs to_value {tv}")));
+    }
+    if chance(1, 3, "producer.capi") {
+        // the C API writes the same scheme out (a handle to it: same scheme object, the C side's own entry point)
+        kernel::count("producer.capi");
+        let handle = wirefilter_ffi::Scheme::from(scheme.clone());
+        let r = wirefilter_serialize_scheme_to_json(&handle);
+        let cjson = if r.json.ptr.is_null() { Vec::new() } else { unsafe { std::slice::from_raw_parts(r.json.ptr as *const u8, r.json.len) }.to_vec() };
+        let ok = r.status == wirefilter_ffi::Status::Success && cjson == text.as_bytes();
+        wirefilter_free_string(r.json);
+        if !ok {
+            return Err(v("scheme-json-capi", "", format!("the C API writes the scheme as {:?}, the engine as {text}", String::from_utf8_lossy(&cjson))));
+        }
     }
     let mut doc = jdoc::parse(&text).map_err(|e| v("scheme-serialize-not-json", "", format!("{text}: {e}")))?;
     let mut expect_fields = fields.clone();
